@@ -28,6 +28,11 @@ open(os.path.join(out, "patch.diff"), "w").write(patch)
 for src, dst in [("cmd/seeddemo/main.go", "demo_main.go"), ("SEED_REPORT.md", "SEED_REPORT.md")]:
     if os.path.exists(os.path.join(wt, src)):
         shutil.copyfile(os.path.join(wt, src), os.path.join(out, dst))
+old = {}
+try:
+    old = json.load(open(os.path.join(out, "meta.json")))
+except Exception:
+    pass
 meta = dict(id=sid, properties_targeted=props, ran=[], patch_lines=len([l for l in patch.split("\n") if l.startswith(("+", "-")) and not l.startswith(("+++", "---"))]))
 rc, o = run("go build ./pkg/... ./cmd/seeddemo/")
 meta["build_with_change"] = rc == 0
@@ -60,6 +65,11 @@ for p in props:
     # restore evidence written against the changed tree
     subprocess.run(["git", "checkout", "--", "evidence/%s.json" % p], cwd=VERIF)
 meta["caught_by"] = [r["check"].split()[0] for r in meta["ran"] if r["exit"] == 1]
+for k in ("where", "needs", "followup", "earlier_runs"):
+    if k in old:
+        meta[k] = old[k]
+if old.get("ran"):
+    meta.setdefault("earlier_runs", []).append([dict(check=r["check"], exit=r["exit"]) for r in old["ran"]])
 json.dump(meta, open(os.path.join(out, "meta.json"), "w"), indent=1)
 print(json.dumps({k: meta[k] for k in ("id", "confirmed", "caught_by", "demo_with_change", "demo_without_change")}, indent=1))
 for r in meta["ran"]:
